@@ -30,46 +30,68 @@ theorem Failed.refl {lbl s f} (hlen : s.ti ≤ s.tree.length) (hm : MInv.ok s.me
     Failed lbl s f s f [] :=
   ⟨rfl, hlen, fun _ _ => rfl, by simp, hm⟩
 
-theorem good_chr_ok {p c} (h : inp[p]? = some c) :
-    Good P cfg env inp (.chr c) p (.ok (p + 1) []) [] := by
-  intro ko st code pc s f hc hp
-  simp only [compile] at hc ⊢
-  simp only [Bool.false_and, Bool.false_eq_true, ↓reduceIte] at hc ⊢
-  obtain ⟨h1, hc1⟩ := hc.head
-  obtain ⟨h2, _⟩ := hc1.head
-  have hlt : p < inp.length := by
-    rcases Nat.lt_or_ge p inp.length with h' | h'
-    · exact h'
-    · simp [List.getElem?_eq_none h'] at h
-  have hb : (bufOf inp)[s.pos]? = some c := by rw [hp.pos, buf_lt hlt, h]
-  refine ⟨{ s with pos := s.pos + 1 }, f, ?_, ?_⟩
-  · have := Succ.move (lbl := st.label) (s := s) (f := f) (s.pos + 1) hp.len hp.memo
-    rw [hp.pos] at this ⊢; simpa using this
-  · refine Steps.trans (Steps.next (s' := s) (f' := f) h1 (by simp [stepLocal, hb])) ?_
-    exact Steps.next h2 (by simp [stepLocal])
-
-theorem good_chr_fail {p c} (hcE : c ≠ END) (h : inp[p]? ≠ some c) :
-    Good P cfg env inp (.chr c) p .fail [] := by
-  intro ko st code pc s f hc hp
-  simp only [compile] at hc ⊢
-  simp only [Bool.false_and, Bool.false_eq_true, ↓reduceIte] at hc ⊢
-  obtain ⟨h1, _⟩ := hc.head
-  refine ⟨s, f, Failed.refl hp.len hp.memo, by simp [jumps, Instr.target?], ?_⟩
-  intro pcko hl
-  rcases buf_cases hp.ple with ⟨x, hx, hbx⟩ | ⟨_, _, hbe⟩
-  · have hne : x ≠ c := by intro e; subst e; exact h hx
-    exact Steps.jump h1 (by rw [← hp.pos] at hbx; simp [stepLocal, hbx, hne]) hl
-  · exact Steps.jump h1 (by rw [← hp.pos] at hbe; simp [stepLocal, hbe, Ne.symm hcE]) hl
-
 omit [MInv] in
 theorem inp_lt_of_some {p : Nat} {c : Sym} (h : inp[p]? = some c) : p < inp.length := by
   rcases Nat.lt_or_ge p inp.length with h' | h'
   · exact h'
   · simp [List.getElem?_eq_none h'] at h
 
+omit [MInv] in
+theorem peek_of_some {p : Nat} {c : Sym} (h : inp[p]? = some c) : peek inp p = c := by
+  simp [peek, h]
+
+omit [MInv] in
+theorem peek_of_none {p : Nat} (h : inp[p]? = none) : peek inp p = END := by
+  simp [peek, h]
+
+theorem good_chr_ok {p c} (h : inp[p]? = some c) :
+    Good P cfg env inp (.chr c) p (.ok (p + 1) []) [] := by
+  intro ko pd pmk st code pc s f hc hp _
+  simp only [compile] at hc ⊢
+  have hlt : p < inp.length := inp_lt_of_some h
+  have hb : (bufOf inp)[s.pos]? = some c := by rw [hp.pos, buf_lt hlt, h]
+  have hS : Succ st.label s f { s with pos := s.pos + 1 } f (p + 1) (postorderL []) [] := by
+    have := Succ.move (lbl := st.label) (s := s) (f := f) (s.pos + 1) hp.len hp.memo
+    rw [hp.pos] at this ⊢; simpa using this
+  refine ⟨{ s with pos := s.pos + 1 }, f, hS, ?_⟩
+  by_cases hel : (pd && !pmk) = true
+  · -- test elided: `position++` only
+    simp only [hel, ↓reduceIte] at hc ⊢
+    obtain ⟨h2, _⟩ := hc.head
+    exact Steps.next h2 (by simp [stepLocal])
+  · simp only [hel, Bool.false_eq_true, ↓reduceIte] at hc ⊢
+    obtain ⟨h1, hc1⟩ := hc.head
+    obtain ⟨h2, _⟩ := hc1.head
+    refine Steps.trans (Steps.next (s' := s) (f' := f) h1 (by simp [stepLocal, hb])) ?_
+    exact Steps.next h2 (by simp [stepLocal])
+
+theorem good_chr_fail {p c} (hcE : c ≠ END) (h : inp[p]? ≠ some c) :
+    Good P cfg env inp (.chr c) p .fail [] := by
+  intro ko pd pmk st code pc s f hc hp hlead
+  simp only [compile] at hc ⊢
+  by_cases hel : (pd && !pmk) = true
+  · -- test elided: `Lead` says the symbol is `c`, so the semantics cannot fail
+    exfalso
+    simp only [Bool.and_eq_true, Bool.not_eq_true'] at hel
+    simp only [Lead] at hlead
+    have hpk := hlead hel.1 hel.2
+    cases hx : inp[p]? with
+    | none => rw [peek_of_none hx] at hpk; exact hcE hpk.symm
+    | some x => rw [peek_of_some hx] at hpk; subst hpk; exact h hx
+  · simp only [hel, Bool.false_eq_true, ↓reduceIte] at hc ⊢
+    obtain ⟨h1, _⟩ := hc.head
+    refine ⟨s, f, Failed.refl hp.len hp.memo, by simp [jumps, Instr.target?], ?_⟩
+    intro pcko hl
+    rcases buf_cases hp.ple with ⟨x, hx, hbx⟩ | ⟨_, _, hbe⟩
+    · have hne : x ≠ c := by intro e; subst e; exact h hx
+      exact Steps.jump h1 (by rw [← hp.pos] at hbx; simp [stepLocal, hbx, hne]) hl
+    · exact Steps.jump h1 (by rw [← hp.pos] at hbe; simp [stepLocal, hbe, Ne.symm hcE]) hl
+
 theorem good_dot_ok (hW : World P cfg env G inp) {p c} (h : inp[p]? = some c) :
     Good P cfg env inp .dot p (.ok (p + 1) []) [] := by
-  intro ko st code pc s f hc hp
+  intro ko pd pmk st code pc s f hc hp hlead
+  simp only [Lead] at hlead
+  subst hlead
   simp only [compile] at hc ⊢
   simp only [Bool.false_eq_true, ↓reduceIte] at hc ⊢
   obtain ⟨h1, _⟩ := hc.head
@@ -83,7 +105,9 @@ theorem good_dot_ok (hW : World P cfg env G inp) {p c} (h : inp[p]? = some c) :
 
 theorem good_dot_fail {p} (h : inp[p]? = none) :
     Good P cfg env inp .dot p .fail [] := by
-  intro ko st code pc s f hc hp
+  intro ko pd pmk st code pc s f hc hp hlead
+  simp only [Lead] at hlead
+  subst hlead
   simp only [compile] at hc ⊢
   simp only [Bool.false_eq_true, ↓reduceIte] at hc ⊢
   obtain ⟨h1, _⟩ := hc.head
@@ -95,38 +119,50 @@ theorem good_dot_fail {p} (h : inp[p]? = none) :
 
 theorem good_rng_ok {p lo hi c} (h : inp[p]? = some c) (hl : lo ≤ c) (hh : c ≤ hi) :
     Good P cfg env inp (.rng lo hi) p (.ok (p + 1) []) [] := by
-  intro ko st code pc s f hc hp
+  intro ko pd pmk st code pc s f hc hp _
   simp only [compile] at hc ⊢
-  simp only [Bool.false_eq_true, ↓reduceIte] at hc ⊢
-  obtain ⟨h1, hc1⟩ := hc.head
-  obtain ⟨h2, _⟩ := hc1.head
   have hlt := inp_lt_of_some h
   have hb : (bufOf inp)[s.pos]? = some c := by rw [hp.pos, buf_lt hlt, h]
   have hnot : ¬ (c < lo ∨ c > hi) := by omega
-  refine ⟨{ s with pos := s.pos + 1 }, f, ?_, ?_⟩
-  · have := Succ.move (lbl := st.label) (s := s) (f := f) (s.pos + 1) hp.len hp.memo
+  have hS : Succ st.label s f { s with pos := s.pos + 1 } f (p + 1) (postorderL []) [] := by
+    have := Succ.move (lbl := st.label) (s := s) (f := f) (s.pos + 1) hp.len hp.memo
     rw [hp.pos] at this ⊢; simpa using this
-  · refine Steps.trans (Steps.next (s' := s) (f' := f) h1 (by simp [stepLocal, hb, hnot])) ?_
+  refine ⟨{ s with pos := s.pos + 1 }, f, hS, ?_⟩
+  by_cases hel : pd = true
+  · simp only [hel, ↓reduceIte] at hc ⊢
+    obtain ⟨h2, _⟩ := hc.head
+    exact Steps.next h2 (by simp [stepLocal])
+  · simp only [hel, Bool.false_eq_true, ↓reduceIte] at hc ⊢
+    obtain ⟨h1, hc1⟩ := hc.head
+    obtain ⟨h2, _⟩ := hc1.head
+    refine Steps.trans (Steps.next (s' := s) (f' := f) h1 (by simp [stepLocal, hb, hnot])) ?_
     exact Steps.next h2 (by simp [stepLocal])
 
 theorem good_rng_fail {p lo hi} (hhi : hi < END)
     (h : ∀ c, inp[p]? = some c → c < lo ∨ hi < c) :
     Good P cfg env inp (.rng lo hi) p .fail [] := by
-  intro ko st code pc s f hc hp
+  intro ko pd pmk st code pc s f hc hp hlead
   simp only [compile] at hc ⊢
-  simp only [Bool.false_eq_true, ↓reduceIte] at hc ⊢
-  obtain ⟨h1, _⟩ := hc.head
-  refine ⟨s, f, Failed.refl hp.len hp.memo, by simp [jumps, Instr.target?], ?_⟩
-  intro pcko hl
-  rcases buf_cases hp.ple with ⟨x, hx, hbx⟩ | ⟨_, _, hbe⟩
-  · have hx' : x < lo ∨ x > hi := h x hx
-    exact Steps.jump h1 (by rw [← hp.pos] at hbx; simp [stepLocal, hbx, hx']) hl
-  · have : END < lo ∨ END > hi := Or.inr hhi
-    exact Steps.jump h1 (by rw [← hp.pos] at hbe; simp [stepLocal, hbe, this]) hl
+  by_cases hel : pd = true
+  · exfalso
+    simp only [Lead] at hlead
+    have hpk := hlead hel
+    cases hx : inp[p]? with
+    | none => rw [peek_of_none hx] at hpk; omega
+    | some x => rw [peek_of_some hx] at hpk; have := h x hx; omega
+  · simp only [hel, Bool.false_eq_true, ↓reduceIte] at hc ⊢
+    obtain ⟨h1, _⟩ := hc.head
+    refine ⟨s, f, Failed.refl hp.len hp.memo, by simp [jumps, Instr.target?], ?_⟩
+    intro pcko hl
+    rcases buf_cases hp.ple with ⟨x, hx, hbx⟩ | ⟨_, _, hbe⟩
+    · have hx' : x < lo ∨ x > hi := h x hx
+      exact Steps.jump h1 (by rw [← hp.pos] at hbx; simp [stepLocal, hbx, hx']) hl
+    · have : END < lo ∨ END > hi := Or.inr hhi
+      exact Steps.jump h1 (by rw [← hp.pos] at hbe; simp [stepLocal, hbe, this]) hl
 
 theorem good_pred_ok {p c} (h : cfg.rho c p = true) :
     Good P cfg env inp (.pred c) p (.ok p []) [] := by
-  intro ko st code pc s f hc hp
+  intro ko pd pmk st code pc s f hc hp _
   simp only [compile] at hc ⊢
   obtain ⟨h1, _⟩ := hc.head
   refine ⟨s, f, by simpa [hp.pos] using Succ.refl_nil (lbl := st.label) (f := f) hp.len hp.memo, ?_⟩
@@ -134,7 +170,7 @@ theorem good_pred_ok {p c} (h : cfg.rho c p = true) :
 
 theorem good_pred_fail {p c} (h : cfg.rho c p = false) :
     Good P cfg env inp (.pred c) p .fail [] := by
-  intro ko st code pc s f hc hp
+  intro ko pd pmk st code pc s f hc hp _
   simp only [compile] at hc ⊢
   obtain ⟨h1, _⟩ := hc.head
   refine ⟨s, f, Failed.refl hp.len hp.memo, by simp [jumps, Instr.target?], ?_⟩
@@ -143,27 +179,27 @@ theorem good_pred_fail {p c} (h : cfg.rho c p = false) :
 
 /-- A user statement `!{…}` changes only the trace. -/
 theorem good_stmt {p c} : Good P cfg env inp (.stmt c) p (.ok p []) [] := by
-  intro ko st code pc s f hc hp
+  intro ko pd pmk st code pc s f hc hp _
   simp only [compile] at hc ⊢
   obtain ⟨h1, _⟩ := hc.head
   refine ⟨{ s with trace := s.trace ++ [(c, s.text)] }, f, ?_, ?_⟩
   · exact ⟨hp.pos, by simp, by simp, hp.len, fun _ _ => rfl, by simp, hp.memo⟩
   · exact Steps.next h1 (by simp [stepLocal])
 
-theorem good_empty {e : Expr} {p} (he : ∀ ko st, (compile env e ko false false st).code = []) :
+theorem good_empty {e : Expr} {p} (he : ∀ ko pd pmk st, (compile env e ko pd pmk st).code = []) :
     Good P cfg env inp e p (.ok p []) [] := by
-  intro ko st code pc s f hc hp
+  intro ko pd pmk st code pc s f hc hp _
   rw [he]
   exact ⟨s, f, by simpa [hp.pos] using Succ.refl_nil (lbl := st.label) (f := f) hp.len hp.memo,
     by simpa using Steps.refl⟩
 
 theorem good_act {p c} : Good P cfg env inp (.act c) p (.ok p []) [] :=
-  good_empty (by intro ko st; simp [compile])
+  good_empty (by intro ko pd pmk st; simp [compile])
 
 theorem good_nil {p} : Good P cfg env inp .nil p (.ok p []) [] :=
-  good_empty (by intro ko st; simp [compile])
+  good_empty (by intro ko pd pmk st; simp [compile])
 
 theorem good_seq_nil {p} : Good P cfg env inp (.seq []) p (.ok p []) [] :=
-  good_empty (by intro ko st; simp [compile, compileSeq])
+  good_empty (by intro ko pd pmk st; simp [compile, compileSeq])
 
 end PegVerif
